@@ -76,7 +76,30 @@ def run_op(ctx, op):
     tgt = ctx.target(d, op.get('target', -1))
     form = op.get('form', 'module')
     limit = op.get('limit', 0)
-    if form == 'module':
+    if form == 'bs4' and not op.get('items'):
+        # through Beautiful Soup's own API (Tag.select / Tag.css.*), the way most users reach the library
+        ns = dict(key['ns']) if key.get('ns') is not None else None
+        kw = {}
+        if key.get('flags'):
+            kw['flags'] = key['flags']
+        if key.get('custom') is not None:
+            kw['custom'] = dict(key['custom'])
+        css = tgt.css
+        if kind == 'select':
+            r = tgt.select(key['pattern'], ns, limit, **kw)
+        elif kind == 'iselect':
+            r = list(css.iselect(key['pattern'], ns, limit, **kw))
+        elif kind == 'select_one':
+            r = tgt.select_one(key['pattern'], ns, **kw)
+        elif kind == 'match':
+            r = css.match(key['pattern'], ns, **kw)
+        elif kind == 'closest':
+            r = css.closest(key['pattern'], ns, **kw)
+        elif kind == 'filter':
+            r = css.filter(key['pattern'], ns, **kw)
+        else:
+            raise ValueError(kind)
+    elif form == 'module' or form == 'bs4':
         ns = dict(key['ns']) if key.get('ns') is not None else None
         flags = key.get('flags', 0)
         kw = {}
